@@ -5,7 +5,7 @@ largest-packet-number slots are symbolic (inductive step from an arbitrary state
 
 EXHAUSTIVE = True
 VALIDATE = True
-SITES = ["no-exception", "a3-value", "own-slot-is-max", "other-slots-unchanged", "nonce-fits"]
+SITES = ["no-exception", "nonce-is-a3-value", "a3-value", "own-slot-is-max", "other-slots-unchanged", "nonce-fits"]
 MODELS = ["QuicSession object built with __new__ + set_packet_number_spaces (no I/O)",
           "packet object: duck-typed stub with isserver/packet_type/packet_num"]
 ASSUMPTIONS = ["largest-received slots hold values in [0, 2^62) (RFC 9000 packet number range)",
@@ -23,12 +23,19 @@ def configs(tier, seed):
             for ty in TYPES:
                 out.append({"name": "len%d-%s-%s" % (n, "server" if isserver else "client", ty), "harness": "a3-step",
                             "n": n, "isserver": isserver, "ptype": ty, "mode": "real"})
+    # the number that reaches the AEAD: one 1-RTT packet through decrypt_packet from an arbitrary state, key phase equal to or
+    # different from the last one seen in its direction (a key update does not restart packet numbers)
+    for n in ((1, 2) if tier == "quick" else (1, 2, 3, 4)):
+        for isserver in (False, True):
+            out.append({"name": "nonce-len%d-%s-RTT_1" % (n, "server" if isserver else "client"), "harness": "nonce-step", "n": n, "isserver": isserver,
+                        "ptype": "RTT_1", "mode": "real"})
     return out
 
 
 def bounds(tier):
     return {"largest": "[0, 2^62) for all six slots, symbolic", "truncated": "all values of 1..4 bytes, symbolic",
-            "packet types x directions": "all 8", "history": "one step from an arbitrary state (inductive)"}
+            "packet types x directions": "all 8", "history": "one step from an arbitrary state (inductive)",
+            "nonce": "one 1-RTT packet through decrypt_packet with symbolic key phase and last seen key phases: the number handed to the AEAD"}
 
 
 SPACES = None
@@ -72,7 +79,103 @@ def _session_and_packet(cfg, slots_server, slots_client, pn):
     return s, p, keys
 
 
+def _run_nonce(cfg):
+    from tlv.sx import shims
+    from tlv.sx.core import sym_int, sym_ite, sym_and, sym_choice, ctx
+    from tlv.sx.symbytes import sym_bytes
+    from tlv.harness.common import explore_cfg
+    import tlexport.quic.quic_session as qs
+    from tlexport.quic.quic_packet import ShortQuicPacket, QuicPacketType as T
+    shims.install(qs)
+    n = cfg["n"]
+
+    class Stop(Exception):
+        pass
+
+    def scenario():
+        c = ctx()
+        ss = [sym_int("server_slot%d" % i, 0, (1 << 62) - 1) for i in range(3)]
+        cs = [sym_int("client_slot%d" % i, 0, (1 << 62) - 1) for i in range(3)]
+        pn = sym_bytes("pn", n)
+        s, _, keys = _session_and_packet(cfg, ss, cs, pn)
+        seen = []
+
+        class Rec:
+            def decrypt(self, payload, packet_number, aad, isserver):
+                seen.append(packet_number)
+                raise Stop()
+        s.decryptors = {"Application": [Rec(), Rec()]}
+        s.epoch_server = s.epoch_client = 0
+        s.last_key_phase_server = sym_choice("last_phase_server", [0, 1])
+        s.last_key_phase_client = sym_choice("last_phase_client", [0, 1])
+        p = ShortQuicPacket.__new__(ShortQuicPacket)
+        p.packet_type, p.isserver, p.packet_num = T.RTT_1, cfg["isserver"], pn
+        p.key_phase = sym_choice("key_phase", [0, 1])
+        p.first_byte, p.dcid, p.payload, p.ts = b"\x40", b"", b"", 1.0
+        own = (ss if cfg["isserver"] else cs)[2]
+        try:
+            s.decrypt_packet(p)
+        except Stop:
+            pass
+        except Exception as e:
+            c.fail("no-exception", "%s: %s" % (type(e).__name__, e))
+            return {"outcome": "exception"}
+        c.check(True, "no-exception")
+        if not c.check(len(seen) == 1, "nonce-is-a3-value", "the AEAD was called %d times" % len(seen)):
+            return {"outcome": "no decryption"}
+        got = shims.IntShim.from_bytes(seen[0], "big")
+        trunc = shims.IntShim.from_bytes(pn, "big")
+        win = 1 << (8 * n)
+        hwin = win // 2
+        expected = own + 1
+        cand = (expected & ~(win - 1)) | trunc
+        c1 = sym_and(cand <= expected - hwin, cand < (1 << 62) - win)
+        c2 = sym_and(cand > expected + hwin, cand >= win)
+        exp = sym_ite(c1, cand + win, sym_ite(c2, cand - win, cand))
+        c.check(got == exp, "nonce-is-a3-value")
+        return {"branch": "explored"}
+    return explore_cfg(scenario, cfg, timeout_ms=120000)
+
+
+def _concrete_nonce(cfg, inp):
+    import tlexport.quic.quic_session as qs
+    from tlexport.quic.quic_packet import ShortQuicPacket, QuicPacketType as T
+    ss = [inp["server_slot%d" % i] for i in range(3)]
+    cs = [inp["client_slot%d" % i] for i in range(3)]
+    pn = bytes.fromhex(inp["pn"])
+    s, _, keys = _session_and_packet(cfg, ss, cs, pn)
+    seen = []
+
+    class Stop(Exception):
+        pass
+
+    class Rec:
+        def decrypt(self, payload, packet_number, aad, isserver):
+            seen.append(packet_number)
+            raise Stop()
+    s.decryptors = {"Application": [Rec(), Rec()]}
+    s.epoch_server = s.epoch_client = 0
+    s.last_key_phase_server = [0, 1][inp.get("last_phase_server", 0)]
+    s.last_key_phase_client = [0, 1][inp.get("last_phase_client", 0)]
+    p = ShortQuicPacket.__new__(ShortQuicPacket)
+    p.packet_type, p.isserver, p.packet_num = T.RTT_1, cfg["isserver"], pn
+    p.key_phase = [0, 1][inp.get("key_phase", 0)]
+    p.first_byte, p.dcid, p.payload, p.ts = b"\x40", b"", b"", 1.0
+    own = (ss if cfg["isserver"] else cs)[2]
+    exp = a3(own, int.from_bytes(pn, "big"), 8 * len(pn))
+    try:
+        s.decrypt_packet(p)
+    except Stop:
+        pass
+    except Exception as e:
+        return {"ok": False, "why": "exception %r" % (e,), "expected": exp}
+    got = int.from_bytes(seen[0], "big") if seen else None
+    return {"ok": got == exp, "nonce_packet_number": got, "expected": exp}
+
+
 def run_config(cfg):
+    if cfg["harness"] == "nonce-step":
+        return _run_nonce(cfg)
     from tlv.sx import core, shims
     from tlv.sx.core import sym_int, sym_ite, sym_and, sym_max, ctx
     from tlv.sx.symbytes import sym_bytes
@@ -126,6 +229,8 @@ def run_config(cfg):
 
 
 def _concrete(cfg, inp):
+    if cfg["harness"] == "nonce-step":
+        return _concrete_nonce(cfg, inp)
     ss = [inp["server_slot%d" % i] for i in range(3)]
     cs = [inp["client_slot%d" % i] for i in range(3)]
     pn = bytes.fromhex(inp["pn"])
